@@ -23,7 +23,7 @@ SHARD_DEADLINE = {'quick': 300, 'thorough': 3300}
 def floors(tier):
     return {'distinct_nontrivial': 6000 if tier == 'quick' else 60000, 'generic_executions': 3000,
             'numeric_reexecutions': 200, 'permuted_order_cases': 200, 'empty_operand_cases': 20,
-            'distinct_generated_functions': 2500, 'cse_false_cases': 100, 'wrapper_configured_cases': 300}
+            'distinct_generated_functions': 2500, 'cse_false_cases': 100, 'wrapper_configured_cases': 300, 'graded_mode_cases': 80}
 
 
 def plan(tier, seed):
@@ -50,12 +50,15 @@ def plan(tier, seed):
             U += u(c, 'sparse', 1, count=120, cap=6)
         for c in rng.sample(gen.pqr_all(6, 6), 2) + [{'signature': gen.random_sig(rng, 7)}]:
             U += u(c, 'sparse', 1, count=100, cap=5)
+            U += u(c, 'highgrade', 1, count=40, cap=4)
         for _ in range(10):
             U += u(gen.random_custom_cfg(rng, rng.choice((2, 3, 3, 4))), 'random', 1, count=120, cap=6)
         for c in gen.NAMED:
             U += u(c, 'sparse', 1, count=120, cap=6)
         for s in (0, 2):
             U += u({'p': 2, 'q': 1, 'r': 0, 'start_index': s}, 'random', 1, count=40, cap=8)
+        for c in ({'p': 2, 'q': 0, 'r': 1}, {'p': 1, 'q': 1, 'r': 1}, {'p': 3, 'q': 0, 'r': 0}, {'p': 1, 'q': 0, 'r': 2}):
+            U += u(dict(c, opts={'graded': True}), 'gradeblocks', 1, count=40, cap=8)
         for c, w in zip(rng.sample(d2, 3) + rng.sample(d3, 3), ('wraps', 'identity') * 3):
             U += u(dict(c, opts={'wrapper': w}), 'sparse', 1, count=120, cap=4, perm=0.6, min_size=2)
         nshards = 16
@@ -86,6 +89,8 @@ def plan(tier, seed):
             U += u(c, 'sparse', 2, count=150, cap=6)
         for s in (0, 1, 2):
             U += u({'p': 2, 'q': 1, 'r': 1, 'start_index': s}, 'random', 1, count=100, cap=8)
+        for c in gen.pqr_all(2, 4):
+            U += u(dict(c, opts={'graded': True}), 'gradeblocks', 1, count=120, cap=11)
         for c, w in zip(rng.sample(d2, 6) + rng.sample(d3, 14), ('wraps', 'identity') * 10):
             U += u(dict(c, opts={'wrapper': w}), 'sparse', 1, count=300, cap=4, perm=0.6, min_size=2)
         nshards = 64
@@ -142,6 +147,8 @@ def run_shard(shard, ctx):
                 ctx.count('cse_false_cases')
             if cfg.get('opts', {}).get('wrapper'):
                 ctx.count('wrapper_configured_cases')
+            if cfg.get('opts', {}).get('graded'):
+                ctx.count('graded_mode_cases')
             ctx.case(cid)
             if ctx.evaluations % 400 == 1:
                 ctx.sample({'config': name, 'keys_a': list(kx), 'keys_b': list(ky), 'keys_out': list(r.keys())})
